@@ -290,13 +290,15 @@ func checkBitmapModel(c *vk.C, prop string, s *store) {
 	h := append([]ev(nil), s.hist...)
 	s.hmu.Unlock()
 	np := s.geo.NumPieces()
-	lastFin := make([]int64, np) // return stamp of last successful finalise
-	lastKill := make([]int64, np)
+	lastFin := make([]int64, np)     // return stamp of the last successful finalise
+	lastFinCall := make([]int64, np) // its call stamp
+	lastKill := make([]int64, np)    // latest return stamp of an eviction report / Del touching the piece
 	for _, e := range h {
 		switch e.Op.K {
 		case opFin:
 			if e.Done && e.Ret > lastFin[e.Op.P] {
 				lastFin[e.Op.P] = e.Ret
+				lastFinCall[e.Op.P] = e.Call
 			}
 		case opExpire:
 			for _, p := range e.Evicted {
@@ -310,6 +312,15 @@ func checkBitmapModel(c *vk.C, prop string, s *store) {
 					lastKill[p] = e.Ret
 				}
 			}
+		}
+	}
+	// Stamps are taken by the caller before the call and after it returned, they are not
+	// linearization points: a Del that waited for the hasher and freed the piece may stamp its
+	// return before the Finalise goroutine stamps its own.  "Must still be complete" is therefore
+	// only concluded when every kill had returned before the successful Finalise was even called.
+	for p := 0; p < np; p++ {
+		if lastKill[p] >= lastFinCall[p] {
+			lastFin[p] = 0
 		}
 	}
 	// ops in flight are not in the history yet; a conservative rule: only judge pieces when no
